@@ -568,6 +568,22 @@ def run(repo: Repo, rep: Report, tier: str) -> None:
             rep.check(looks and not unconditional, "C10-R18", f"_decide_materialization: suppression decision #{n18} looks at the readers", "decided from the entry's consumers" if looks and not unconditional else
                       "`should_materialize = False` on the flag alone: an identical expression merged into this node by CSE, or the same named value used as an operand, reads a signal that no combinator produces", dm.loc(st))
     rep.floor("C10-R18", "suppression decisions", n18, 3)
+    # ... and a plain constant is never kept for its readers' sake: they take the literal.  (A suppressed constant that is materialised turns `c > i`, with the int i
+    # also used as a coordinate, into a comparison of two signals; the entity condition it is inlined into then has no constant.)
+    hlc = repo.cls("SignalAnalyzer").methods.get("_has_live_consumer")
+    if hlc is not None:
+        first_ret = None
+        for st in hlc.node.body:
+            if isinstance(st, ast.If) and any(isinstance(b, ast.Return) and isinstance(b.value, ast.Constant) and b.value.value is False for b in st.body):
+                first_ret = st
+                break
+            if isinstance(st, (ast.For, ast.While)):
+                break
+        t18 = norm(first_ret.test) if first_ret is not None else ""
+        ok18 = "IRConst" in t18 and "isinstance(" in t18
+        rep.check(ok18, "C10-R18", "_has_live_consumer: a plain constant is left to be inlined by its readers", t18[:90] if ok18 else
+                  "no early `return False` for an IRConst producer: a constant marked as a coordinate gets a combinator as soon as something else reads it, and readers that "
+                  "need a literal (an inlined entity condition) lose it", hlc.loc())
 
 
 
